@@ -19,7 +19,7 @@ package influxdb
 //@   preserves influxdb.flush
 
 // FlushOK: a flush in progress holds its callbacks, an error counter, and a buffer together with its writer.
-//@ pred FlushOK(f *flush) := f != nil && f.cb != nil && f.getBuffer != nil && f.releaseBuffer != nil && f.errorCounter != nil && f.metricsPerBatch >= 1
+//@ pred FlushOK(f *flush) := f != nil && f.cb != nil && f.getBuffer != nil && f.releaseBuffer != nil && f.errorCounter != nil && objOf(f.errorCounter) != f && f.metricsPerBatch >= 1
 //@ pred HasBuf(f *flush) := f.buffer != nil && f.writer != nil
 
 //@ func (*flush).flush
